@@ -331,17 +331,21 @@ def classify_swap_assert(e, case, mpo, kind):
     """signature of the two known ways try_swap_site dies with an AssertionError (None = something else).
     FC17a: an MPO built with the QR algorithm has bond operators that are linear combinations; a graph-algorithm swap treats
            them as opaque symbols and can leave a bond operator whose expansion cancels identically; the next swap to its left
-           drops the all-zero rows and trips `assert [] not in new_out_ops3` (default build = qr, default swap = Hopcroft-Karp,
-           i.e. exactly what the OFS drivers use).
+           drops the all-zero rows and trips an assertion of swap_site (empty bond operator) or the row-count assertion of its
+           self-check (default build = qr, default swap = Hopcroft-Karp, i.e. exactly what the OFS drivers use); with the
+           self-check bypassed the swap would have been correct.
     FC17b: see qn_width_defect."""
     import traceback
 
     if not isinstance(e, AssertionError):
         return None
     last = traceback.extract_tb(e.__traceback__)[-1]
-    # call site (not message text): an assertion of swap_site itself, with the precondition verified by the harness
-    if last.filename.endswith("symbolic_mpo.py") and last.name == "swap_site" and cancelling_bond_operator(mpo) is not None:
-        return f"fc17a.{kind}.empty_bond_operator"
+    # call site (not message text): an assertion of swap_site itself, or the row-count assertion of its self-check (innermost
+    # frame check_swap_consistency; the rounding-level mismatch of C01's F15 is raised from numpy.testing frames instead),
+    # with the precondition verified by the harness
+    if last.filename.endswith("symbolic_mpo.py") and last.name in ("swap_site", "check_swap_consistency") \
+            and cancelling_bond_operator(mpo) is not None:
+        return f"fc17a.{kind}." + ("empty_bond_operator" if last.name == "swap_site" else "selfcheck_count_mismatch")
     if case.get("swap_jw") and is_dup_rows_assert(e) and qn_width_defect(mpo):
         return f"fc17b.{kind}.duplicate_primary_ops"
     return None
@@ -573,7 +577,7 @@ class C17(Prop):
 
     known_matchers = {
         "F12": lambda spec, sig, msg: sig.startswith("f12.") and spec.get("symbols") == "short" and bool(spec.get("swap_jw")),
-        "FC17a": lambda spec, sig, msg: sig.startswith("fc17a.") and sig.endswith("empty_bond_operator")
+        "FC17a": lambda spec, sig, msg: sig.startswith("fc17a.") and sig.endswith(("empty_bond_operator", "selfcheck_count_mismatch"))
         and (spec.get("kind") in ("gs", "evo") or (spec.get("algo") == "qr" and spec.get("swap_algo") in ("Hopcroft-Karp", "Hungarian"))),
         "FC17c": lambda spec, sig, msg: sig.startswith("fc17c.") and sig.endswith("qr_mixed_sector_label")
         and (spec.get("kind") in ("gs", "evo") or "qr" in (spec.get("algo"), spec.get("swap_algo")))
@@ -687,12 +691,16 @@ class C17(Prop):
                 mpo.try_swap_site(new_model, swap_jw=jw, algo=case["swap_algo"])
                 d = np.asarray(mpo.todense())
             except AssertionError as e:
+                import traceback
+
+                known = classify_swap_assert(e, case, mpo, "swap")
                 sig, in_lib = lib_exception_sig(e)
-                if in_lib and sig.endswith("check_swap_consistency") and qr:
-                    # C01's known finding F15: the library's own self-check is stricter than the QR cut; nothing was modified
+                if not known and in_lib and sig.endswith("check_swap_consistency") and qr \
+                        and not traceback.extract_tb(e.__traceback__)[-1].filename.endswith("symbolic_mpo.py"):
+                    # C01's known finding F15: the library's own self-check (assert_allclose) is stricter than the QR cut;
+                    # nothing was modified
                     r.rejected = "check_swap_consistency refused a QR swap (C01/F15)"
                     return
-                known = classify_swap_assert(e, case, mpo, "swap")
                 if known:
                     r.fail(known, f"try_swap_site died at swap {k} (position {pos}) of {case['swaps']} (build {case['algo']}, swap "
                                   f"{case['swap_algo']}, swap_jw={jw}, symbols={case['symbols']}, qn_size={mpo.model.qn_size}): {e!r}")
